@@ -170,6 +170,8 @@ P("cfg_sector", CFG_SECTOR); P("cfg_state_off", STATE_SECTOR_OFFSET);
                    r"content_len = update->expected_file_size - update->downloaded_data_size;", un)
     if len(ma) != 2 or len(ml) != 2 or not (mf and mk and mb):
         raise ExtractError("supla_update.c: slot/limit/footer literals not recognised")
+    if "if ( key_bytes == RSA_NUM_BYTES ) {" not in un:
+        raise ExtractError("supla_update.c: the key-size test of supla_esp_update_verify_and_reboot is not 'key_bytes == RSA_NUM_BYTES'")
     # the response head: the three strstr literals, the offset behind "Content-Length: ", the head buffer size and the
     # shape of the digit loop (digits accumulate with <<3 + <<1, the size gate sits at the line end, the loop ends there)
     lit = r'"((?:[^"\\]|\\.)*)"'
